@@ -134,7 +134,10 @@ def g_null(rng, dic, V):
 
 def g_prefix(rng, dic, V):
     """words sharing their first phones leave the same state (lextree prefix sharing), then rejoin"""
-    w0 = rng.choice([w for w in V if len(dic[w][0][1]) >= 2])
+    multi = [w for w in V if len(dic[w][0][1]) >= 2]
+    if not multi:
+        return g_branch(rng, dic, V)
+    w0 = rng.choice(multi)
     p = dic[w0][0][1][:2]
     same = [w for w in V if dic[w][0][1][:2] == p] or [w0]
     first = [w for w in V if dic[w][0][1][:1] == p[:1]]
@@ -186,9 +189,13 @@ def gen_case(rng, dic, vocab, cid, tier, beams=None, frames=None, lang="en-us"):
            "fillprob": rng.choice(["1e-8", "1e-8", "1e-3"]), "fsgusefiller": "yes" if rng.chance(0.9) else "no",
            "fsgusealtpron": "yes" if rng.chance(0.85) else "no"}
     if beams is None:
-        beams = "wide" if rng.chance(0.8) else "default"
+        beams = rng.weighted([("wide", 70), ("default", 15), ("medium", 15)])
     if beams == "wide":
         cfg.update({"beam": "0", "pbeam": "0", "wbeam": "0"})
+    elif beams == "medium":
+        # beams of the order of the score spread: exercises the boundary of the proved no-pruning condition
+        b = rng.choice(["1e-100", "1e-200", "1e-300"])
+        cfg.update({"beam": b, "pbeam": rng.choice([b, "1e-150"]), "wbeam": rng.choice([b, "1e-120"])})
     else:
         cfg.update({"beam": "1e-48", "pbeam": "1e-48", "wbeam": "7e-29"})
     apath = LANGS[lang]["audio"]
@@ -274,7 +281,7 @@ def parse_driver(out):
              "edges": int(d["edges"]), "spread": int(d["spread"]), "beam": int(d["beam"]), "align": d.get("align", "-"),
              "minval": None if d["minval"] == "none" else int(d["minval"])}
         r["lexonly"], r["flatonly"] = d.get("lexonly", "-"), d.get("flatonly", "-")
-        for k in ("consts", "data", "fillerflags", "closed", "monotone", "skipcons", "agree", "pathok", "labels", "lextree"):
+        for k in ("consts", "data", "fillerflags", "closed", "monotone", "skipcons", "agree", "pathok", "labels", "lextree", "regime"):
             if k in d:
                 r[k] = d[k] == "true"
         res[w[1]] = r
@@ -345,7 +352,10 @@ def verdict_score(case, h, m):
     cs, opt = h["score"], m["opt"]
     wide = case["beams"] == "wide"
     floor = m["minval"] is None or m["minval"] > -536870912 + 33023
-    regime = wide and m["monotone"] and m["skipcons"] and floor and m["spread"] + MARGIN < -m["beam"]
+    # no-pruning regime: the condition `Beam.regime` the driver evaluated on the model's beam-annotated network with the
+    # beams the search holds (theorem C02_wide_beams_prune_nothing: the beam tests then remove nothing), plus the
+    # no-underflow / skip-consistency hypotheses of C02_hmmStep_eq_ideal
+    regime = bool(m.get("regime")) and m["skipcons"] and floor
     if cs is not None and h["exit_frame"] != h["T"] - 1:
         # no history entry in the final frame (every word exit pruned, or the utterance is shorter than any sentence while
         # the grammar has a null path start -> final): fsg_search_find_exit falls back to the most recent frame that has
@@ -676,8 +686,11 @@ def check(c):
     c.assumptions += ["compallsen=yes (with the default the per-frame normaliser depends on the active senone set and the "
                       "total is not a function of the frame scores alone — DESIGN D12)",
                       "fillers are single-phone words (true of every shipped noisedict; the driver reports fillerflags otherwise)",
-                      "no-pruning regime = wide-open beams AND measured per-frame score spread + margin < |beam| AND all penalties <= 0 "
-                      "AND every finite score > WORST_SCORE + 33023; outside it only 'reported <= optimum' is required",
+                      "no-pruning regime = Beam.regime evaluated by the driver on the beam-annotated network with the beams the search "
+                      "holds (proved to imply that the beam tests remove nothing: C02_wide_beams_prune_nothing) AND every finite score "
+                      "> WORST_SCORE + 33023 AND skip-consistent transition matrices (hypotheses of C02_hmmStep_eq_ideal); outside it "
+                      "only 'reported <= optimum' is required.  The beam model itself (Model/Beam.lean) is read from fsg_search.c and is "
+                      "tied to it only through the equality it predicts",
                       "3-state left-to-right topology (the shipped models); the 5-state and any-topology evaluators are not modelled"]
     if not c.lean_obligations():
         return
@@ -740,6 +753,8 @@ def check(c):
             nn = sum(1 for t in case["trans"] if not t[3])
             stats["cfg"]["grammars_with_null_arcs"] = stats["cfg"].get("grammars_with_null_arcs", 0) + (1 if nn else 0)
             if m and "error" not in m:
+                rk = f"{case['beams']}-beams/regime={bool(m.get('regime'))}"
+                stats.setdefault("regime", {})[rk] = stats.setdefault("regime", {}).get(rk, 0) + 1
                 stats["lextree_compared"] = stats.get("lextree_compared", 0) + (1 if "lextree" in m else 0)
                 if m.get("lextree") is False and kind != "lextree-mismatch":
                     lexok = False
@@ -793,6 +808,7 @@ def check(c):
                   "corpus_cases": ncorp, "verdicts": stats["verdicts"], "grammar_shapes": stats["shapes"], "beams": stats["beams"],
                   "audio_kinds": stats["audio"], "config_values": stats["cfg"], "frames": hist(stats["frames"]), "network_states": hist(stats["states"]),
                   "network_edges": hist(stats["edges"]), "max_score_spread_vs_beam": [stats["spread_max"], 524288],
+                  "no_pruning_regime_by_beams": stats.get("regime", {}),
                   "lextree_structures_compared": stats.get("lextree_compared", 0),
                   "vocabulary_size": {k: len(v) for k, v in vocab.items()}, "acoustic_models": stats["langs"],
                   "unit_ops": stats.get("unit_ops"), "hmm_ops_also_checked_against_max_plus": stats.get("hmm_ideal_checked"),
